@@ -707,8 +707,13 @@ fn enum_outcomes(rec: &mut Recorder, kind: Kind, force: bool, s0: &Snap) -> Stri
 struct Gen {
     rng: Rng,
     next_val: V,
+    keyed_bias: bool,
 }
+const KEYED_KINDS: [Kind; 6] = [Kind::KeyedTotal, Kind::KeyedNo, Kind::KeyedSingleton, Kind::TlKeyedOrder, Kind::TlPartial, Kind::TlKeyedMerge];
 impl Gen {
+    fn kind(&mut self) -> Kind {
+        if self.keyed_bias && self.rng.chance(2, 3) { *self.rng.pick(&KEYED_KINDS) } else { *self.rng.pick(&ALL_KINDS) }
+    }
     fn vals(&mut self, n: usize) -> Vec<V> {
         (0..n)
             .map(|_| {
@@ -817,7 +822,7 @@ fn run_ops(case: &mut Case, rec: &mut Recorder, ops: &[Op]) {
 
 fn gen_case_c36(idx: u64, g: &mut Gen, rec: &mut Recorder, cases: u64) {
     let mut case = Case::new();
-    let exhaustive_n = (cases * 2 / 5).max(1);
+    let exhaustive_n = if cases == 0 { 0 } else { (cases * 2 / 5).max(1) };
     if idx < exhaustive_n {
         // small scope, enumerated: kind × size × force × tape
         let kind = ALL_KINDS[(idx % 13) as usize];
@@ -841,7 +846,7 @@ fn gen_case_c36(idx: u64, g: &mut Gen, rec: &mut Recorder, cases: u64) {
     }
     if g.rng.chance(3, 5) {
         // one hook, several rounds of feed / decide / release
-        let kind = *g.rng.pick(&ALL_KINDS);
+        let kind = g.kind();
         rec.case(idx, &format!("life kind={}", kind.name()));
         let size = g.rng.below(5) as usize;
         let new = g.new_op(kind, size);
@@ -873,7 +878,7 @@ fn gen_case_c36(idx: u64, g: &mut Gen, rec: &mut Recorder, cases: u64) {
         let nh = 1 + g.rng.below(4) as usize;
         rec.case(idx, &format!("tick hooks={nh}"));
         for _ in 0..nh {
-            let kind = *g.rng.pick(&ALL_KINDS);
+            let kind = g.kind();
             let size = g.rng.below(4) as usize;
             let new = g.new_op(kind, size);
             run_ops(&mut case, rec, &[new]);
@@ -928,6 +933,35 @@ fn gen_case_c37(idx: u64, g: &mut Gen, rec: &mut Recorder) {
     run_ops(&mut case, rec, &[Op::Enum { kind, force, q, q2, m, m2 }]);
 }
 
+/// C38 oracle on the real code: replay the op lines the case just performed on *fresh* hooks (same
+/// process) and require the same answers — decision logs (`calls=`), outputs, verdicts (`panic`).
+fn replay_oracle(rec: &mut Recorder, start: usize, istart: usize) {
+    let ops: Vec<String> = rec.ops[start..].lines().map(|l| l.to_string()).collect();
+    let imp: Vec<String> = rec.imp[istart..].lines().map(|l| l.to_string()).collect();
+    let mut scratch = Recorder::new("");
+    let mut case = Case::new();
+    for (i, l) in ops.iter().enumerate() {
+        if l.starts_with("#case") {
+            continue;
+        }
+        match case.exec(&parse_op(l), &mut scratch) {
+            None => break,
+            Some((line, ans)) => {
+                if line != *l {
+                    // the keyed input could not be rebuilt with the same iteration order: not comparable
+                    rec.count("replay:order-not-reproducible");
+                    return;
+                }
+                rec.check(ans == imp[i], "replay-diverged@sim-hooks", &format!("line `{l}`: first run `{}` replay `{ans}`", imp[i]));
+                if ans != imp[i] {
+                    return;
+                }
+            }
+        }
+    }
+    rec.count("replay:compared");
+}
+
 fn main() {
     let a = Args::parse();
     quiet_panics();
@@ -940,6 +974,9 @@ fn main() {
         }
     };
     let mut rec = Recorder::new(rule);
+    // C38: perturb the heap layout of this process (`--pad N`), so that two runs differ in addresses
+    let pad: usize = a.extra.get("pad").and_then(|v| v.parse().ok()).unwrap_or(0);
+    let _junk: Vec<Vec<u8>> = (0..pad % 97).map(|i| vec![i as u8; 1 + (pad * (i + 1)) % 4093]).collect();
     if let Some(rp) = &a.replay {
         let mut case = Case::new();
         for l in read_lines(rp) {
@@ -957,9 +994,16 @@ fn main() {
     } else {
         let root = Rng::new(a.seed);
         for idx in 0..a.cases {
-            let mut g = Gen { rng: root.fork(idx), next_val: 0 };
+            let mut g = Gen { rng: root.fork(idx), next_val: 0, keyed_bias: false };
             match a.mode.as_str() {
                 "c37" => gen_case_c37(idx, &mut g, &mut rec),
+                "c38" => {
+                    let start = rec.ops.len();
+                    let istart = rec.imp.len();
+                    g.keyed_bias = true;
+                    gen_case_c36(idx, &mut g, &mut rec, 0);
+                    replay_oracle(&mut rec, start, istart);
+                }
                 _ => gen_case_c36(idx, &mut g, &mut rec, a.cases),
             }
         }
